@@ -14,6 +14,12 @@
 (*             a get-and-touch that found the value then writes the        *)
 (*             metadata record back (REPLACE: only if it still exists) to  *)
 (*             refresh the expiry stored in it                             *)
+(*   appenders append / prepend: read the item like a get (metadata, the   *)
+(*             pipelined quiet gets of its chunks, no-op), give up when it *)
+(*             does not assemble, then store the grown value like a set -  *)
+(*             under a FRESH token (AppendToken = "old" models a re-store  *)
+(*             under the token of the value that was read: the negative    *)
+(*             control - old and new entries then pass for one write)      *)
 (*   Lose(s)   the backend may drop any entry at any time (eviction)       *)
 (*                                                                         *)
 (* Reassembly rule (comments of chunked/handler.go): a hit only if every   *)
@@ -26,10 +32,14 @@
 (***************************************************************************)
 EXTENDS Integers, Sequences, FiniteSets, TLC
 
-CONSTANTS Writers, Readers, N, Kind, RKind, MaxChunks, LossBudget, CountRule
+CONSTANTS Writers, Readers, N, Kind, RKind, MaxChunks, LossBudget, CountRule, AppendToken
 
-VARIABLES meta, chunk, wpc, rpc, rmeta, rgot, rres, losses
-vars == <<meta, chunk, wpc, rpc, rmeta, rgot, rres, losses>>
+\* entries carry the token they were stored with (tok) and, for the verdict, the write that produced
+\* their bytes (by); the handler can only see tok
+VARIABLES meta, chunk, wpc, rpc, rmeta, rgot, rres, losses, apc, ameta, agot
+vars == <<meta, chunk, wpc, rpc, rmeta, rgot, rres, losses, apc, ameta, agot>>
+avars == <<apc, ameta, agot>>
+Grows(w) == Kind[w] \in {"append", "prepend"}
 
 None == [none |-> TRUE]
 Slots == 0..(MaxChunks - 1)
@@ -48,71 +58,96 @@ RGetGat == [r \in Readers |-> IF r = "r1" THEN "get" ELSE "gat"]
 KSetSet == [w \in Writers |-> "set"]
 KSetAdd == [w \in Writers |-> IF w = "w1" THEN "set" ELSE "add"]
 KSetRep == [w \in Writers |-> IF w = "w1" THEN "set" ELSE "replace"]
+KSetApp == [w \in Writers |-> IF w = "w1" THEN "set" ELSE "append"]
+KSetPre == [w \in Writers |-> IF w = "w1" THEN "set" ELSE "prepend"]
 
-\* wpc: -1 = metadata request next, 0..n-1 = that chunk next, n = done, -2 = refused
+\* wpc: -3 = an appender still reading (apc: -1 = metadata next, 0..n-1 = quiet get of that chunk, n = no-op),
+\*      -1 = metadata request next, 0..n-1 = that chunk next, n = done, -2 = refused
 \* rpc: -1 = metadata request next, 0..n-1 = quiet get of that chunk next, n = no-op next,
 \*      101 = metadata refresh of a get-and-touch next, 100 = done
 Init ==
   /\ meta = None /\ chunk = [i \in Slots |-> None]
-  /\ wpc = [w \in Writers |-> -1] /\ rpc = [r \in Readers |-> -1]
+  /\ wpc = [w \in Writers |-> IF Grows(w) THEN -3 ELSE -1] /\ rpc = [r \in Readers |-> -1]
   /\ rmeta = [r \in Readers |-> None] /\ rgot = [r \in Readers |-> <<>>]
   /\ rres = [r \in Readers |-> <<"pending">>] /\ losses = 0
+  /\ apc = [w \in Writers |-> -1] /\ ameta = [w \in Writers |-> None] /\ agot = [w \in Writers |-> <<>>]
+
+\* the token a writer stores its entries with
+Tok(w) == IF Grows(w) /\ AppendToken = "old" /\ ameta[w] # None THEN ameta[w].tok ELSE w
 
 WMeta(w) ==
   /\ wpc[w] = -1
   /\ LET refused == (Kind[w] = "add" /\ meta # None) \/ (Kind[w] = "replace" /\ meta = None) IN
      IF refused THEN wpc' = [wpc EXCEPT ![w] = -2] /\ UNCHANGED meta
-     ELSE meta' = [tok |-> w, n |-> N[w]] /\ wpc' = [wpc EXCEPT ![w] = 0]
-  /\ UNCHANGED <<chunk, rpc, rmeta, rgot, rres, losses>>
+     ELSE meta' = [tok |-> Tok(w), n |-> N[w], by |-> w] /\ wpc' = [wpc EXCEPT ![w] = 0]
+  /\ UNCHANGED <<chunk, rpc, rmeta, rgot, rres, losses, avars>>
 
 WChunk(w) ==
   /\ wpc[w] \in 0..(N[w] - 1)
-  /\ chunk' = [chunk EXCEPT ![wpc[w]] = [tok |-> w, i |-> wpc[w]]]
+  /\ chunk' = [chunk EXCEPT ![wpc[w]] = [tok |-> Tok(w), i |-> wpc[w], by |-> w]]
   /\ wpc' = [wpc EXCEPT ![w] = @ + 1]
-  /\ UNCHANGED <<meta, rpc, rmeta, rgot, rres, losses>>
+  /\ UNCHANGED <<meta, rpc, rmeta, rgot, rres, losses, avars>>
 
 RMeta(r) ==
   /\ rpc[r] = -1
   /\ IF meta = None
      THEN rres' = [rres EXCEPT ![r] = <<"miss">>] /\ rpc' = [rpc EXCEPT ![r] = 100] /\ UNCHANGED rmeta
      ELSE rmeta' = [rmeta EXCEPT ![r] = meta] /\ rpc' = [rpc EXCEPT ![r] = 0] /\ UNCHANGED rres
-  /\ UNCHANGED <<meta, chunk, wpc, rgot, losses>>
+  /\ UNCHANGED <<meta, chunk, wpc, rgot, losses, avars>>
 
 RGetQ(r) ==
   /\ rmeta[r] # None /\ rpc[r] \in 0..(rmeta[r].n - 1)
   /\ rgot' = [rgot EXCEPT ![r] = IF chunk[rpc[r]] = None THEN @ ELSE Append(@, chunk[rpc[r]])]
   /\ rpc' = [rpc EXCEPT ![r] = @ + 1]
-  /\ UNCHANGED <<meta, chunk, wpc, rmeta, rres, losses>>
+  /\ UNCHANGED <<meta, chunk, wpc, rmeta, rres, losses, avars>>
 
 \* what the reader hands back once the no-op reply has arrived
 Assemble(m, got) ==
   LET tokensOK == \A j \in DOMAIN got : got[j].tok = m.tok
       countOK  == Len(got) = m.n
   IN IF tokensOK /\ (countOK \/ ~CountRule)
-     THEN <<"hit", m.tok, m.n, [j \in 1..m.n |-> IF j <= Len(got) THEN <<got[j].tok, got[j].i>> ELSE <<"zero", j - 1>>]>>
+     THEN <<"hit", m.by, m.n, [j \in 1..m.n |-> IF j <= Len(got) THEN <<got[j].by, got[j].i>> ELSE <<"zero", j - 1>>]>>
      ELSE <<"miss">>
 
 RNoop(r) ==
   /\ rmeta[r] # None /\ rpc[r] = rmeta[r].n
   /\ rres' = [rres EXCEPT ![r] = Assemble(rmeta[r], rgot[r])]
   /\ rpc' = [rpc EXCEPT ![r] = IF RKind[r] = "gat" /\ Assemble(rmeta[r], rgot[r]) # <<"miss">> THEN 101 ELSE 100]
-  /\ UNCHANGED <<meta, chunk, wpc, rmeta, rgot, losses>>
+  /\ UNCHANGED <<meta, chunk, wpc, rmeta, rgot, losses, avars>>
 
 \* get-and-touch: write the metadata record back, if there still is one
 RRefresh(r) ==
   /\ rpc[r] = 101
   /\ meta' = IF meta = None THEN None ELSE rmeta[r]
   /\ rpc' = [rpc EXCEPT ![r] = 100]
-  /\ UNCHANGED <<chunk, wpc, rmeta, rgot, rres, losses>>
+  /\ UNCHANGED <<chunk, wpc, rmeta, rgot, rres, losses, avars>>
+
+\* append / prepend: the read phase (same requests as a get), then the grown value is stored like a set
+AMeta(w) ==
+  /\ wpc[w] = -3 /\ apc[w] = -1
+  /\ IF meta = None
+     THEN wpc' = [wpc EXCEPT ![w] = -2] /\ UNCHANGED <<ameta, apc>>
+     ELSE ameta' = [ameta EXCEPT ![w] = meta] /\ apc' = [apc EXCEPT ![w] = 0] /\ UNCHANGED wpc
+  /\ UNCHANGED <<meta, chunk, rpc, rmeta, rgot, rres, losses, agot>>
+AGetQ(w) ==
+  /\ wpc[w] = -3 /\ ameta[w] # None /\ apc[w] \in 0..(ameta[w].n - 1)
+  /\ agot' = [agot EXCEPT ![w] = IF chunk[apc[w]] = None THEN @ ELSE Append(@, chunk[apc[w]])]
+  /\ apc' = [apc EXCEPT ![w] = @ + 1]
+  /\ UNCHANGED <<meta, chunk, wpc, rpc, rmeta, rgot, rres, losses, ameta>>
+ANoop(w) ==
+  /\ wpc[w] = -3 /\ ameta[w] # None /\ apc[w] = ameta[w].n
+  /\ wpc' = [wpc EXCEPT ![w] = IF Assemble(ameta[w], agot[w]) = <<"miss">> THEN -2 ELSE -1]
+  /\ apc' = [apc EXCEPT ![w] = 100]
+  /\ UNCHANGED <<meta, chunk, rpc, rmeta, rgot, rres, losses, ameta, agot>>
 
 LoseMeta == /\ losses < LossBudget /\ meta # None /\ meta' = None /\ losses' = losses + 1
-            /\ UNCHANGED <<chunk, wpc, rpc, rmeta, rgot, rres>>
+            /\ UNCHANGED <<chunk, wpc, rpc, rmeta, rgot, rres, avars>>
 LoseChunk(i) == /\ losses < LossBudget /\ chunk[i] # None /\ chunk' = [chunk EXCEPT ![i] = None] /\ losses' = losses + 1
-                /\ UNCHANGED <<meta, wpc, rpc, rmeta, rgot, rres>>
+                /\ UNCHANGED <<meta, wpc, rpc, rmeta, rgot, rres, avars>>
 
 Finished == (\A w \in Writers : wpc[w] \in {N[w], -2}) /\ (\A r \in Readers : rpc[r] = 100)
 
-Next == \/ \E w \in Writers : WMeta(w) \/ WChunk(w)
+Next == \/ \E w \in Writers : WMeta(w) \/ WChunk(w) \/ AMeta(w) \/ AGetQ(w) \/ ANoop(w)
         \/ \E r \in Readers : RMeta(r) \/ RGetQ(r) \/ RNoop(r) \/ RRefresh(r)
         \/ LoseMeta \/ \E i \in Slots : LoseChunk(i)
         \/ (Finished /\ UNCHANGED vars)
